@@ -35,6 +35,16 @@ def gen_ops(rng, depth=0):
             pats.append("/%s/*rest" % NAMES[k])
         elif r < 0.87:
             ops.append("L%d" % rng.randrange(1, 50))
+        elif depth < 2 and rng.random() < 0.25:
+            # a clone of the router built so far, given a route layer (or further routes) and merged back: every path it
+            # shares with the original is registered twice, which merge must refuse like any other conflict
+            sub = ["L%d" % rng.randrange(1, 50)] if rng.random() < 0.7 else []
+            if rng.random() < 0.4:
+                p = gen_path(rng)
+                sid[0] += 1
+                sub.append("r:%s:%d" % (hx(p.encode()), sid[0]))
+                pats.append(p)
+            ops += ["[c"] + sub + ["]"]
         elif depth < 2:
             sub, sp = gen_ops(rng, depth + 1)
             ops += ["["] + sub + ["]"]
@@ -86,6 +96,16 @@ def run(chk):
             continue
         built_ok = "PANIC@" not in a
         chk.count("table:" + ("accepted" if built_ok else "rejected"))
+        prog = c.split("|", 1)[0].split()[1:]
+        if built_ok and "[c" in prog:
+            # model-independent: a merge of a clone registers the original's paths again; if the original had any route
+            # (registered before the clone was taken, at the same nesting level or below) the merge must be refused
+            k = prog.index("[c")
+            depth, had_route = 0, False
+            for op in prog[:k]:
+                had_route = had_route or op.startswith(("r:", "S"))
+            if had_route and all(x != "[" for x in prog[:k]):
+                chk.monitor_fail("a router was merged with a clone of itself (routes registered twice, the clone carrying %s) and the merge was accepted" % [x for x in prog[k + 1:prog.index("]", k)]][:3], dict(case=c[:800], impl=a[:300]))
         if built_ok:
             outs = a.split("|", 1)[1].split()
             hits = [o for o in outs if o != "404"]
